@@ -332,6 +332,11 @@ func judge(c *pcase) (v verdict) {
 		v.class("lazy-evaluation")
 	}
 	switch {
+	case after.err == irx.ErrStepLimit && usedLazy:
+		// on-demand evaluation caches a value per invocation: an unemitted Load inside a loop (open
+		// finding C13-1 / C13-6) then never changes, which says nothing about the transformed module
+		v.skip = "known:unemitted-expression(lazy-evaluation-differs)"
+		return v
 	case after.err == irx.ErrStepLimit:
 		v.ok, v.msg = false, fmt.Sprintf("after %v the entry point does not terminate within %d steps (before: %d)", c.Passes, limit, before.res.Steps)
 		return v
@@ -663,6 +668,13 @@ func knownConstruct(m *ir.Module, passes []string) string {
 	}
 	if m2r && active("c13-mem2reg-single-block-in-loop") && singleBlockVarInLoop(m) {
 		return "c13-mem2reg-single-block-in-loop"
+	}
+	if m2r && active("c13-mem2reg-single-block-in-loop") && (hasPass(passes, "dxil:prepare") || hasPass(passes, "dxil:all")) {
+		// the locals the inliner creates for a call inside a loop (argument / result copies) are
+		// single-block variables inside that loop as well: look at the prepared module too
+		if pm, err := dxil.VerifPrepare(m); err == nil && pm != nil && singleBlockVarInLoop(pm) {
+			return "c13-mem2reg-single-block-in-loop"
+		}
 	}
 	if (hasPass(passes, "dxil:sroa") || hasPass(passes, "dxil:all")) && active("c13-sroa-full-compose-store-not-decomposed") && composeStoredToStructLocal(m) {
 		return "c13-sroa-full-compose-store-not-decomposed"
